@@ -49,13 +49,6 @@ def specNtsDc (r : Ring Node) (tok : Int) (dc rf : Nat) : List Node :=
 /-- The locator `ReplicaLocator::new` builds for ring `r` when the keyspace strategies are `S`. -/
 abbrev locOf (r : Ring Node) (S : List Strategy) : Locator := ⟨r, precompute r S⟩
 
-theorem mkLocator_eq (entries : List (Int × Node)) (S : List Strategy) :
-    mkLocator entries S = locOf (mkRing entries) S := rfl
-
-/-- `TokenRing::new` yields a sorted ring, so the hypothesis `Sorted r` of the theorems below holds for every
-ring the driver builds. -/
-theorem ring_sorted (entries : List (Int × Node)) : Sorted (mkRing entries) := mkRing_sorted entries
-
 /-! ### helpers -/
 
 private theorem distinct_eq_uniq {α : Type} [DecidableEq α] (l : List α) : distinct l = uniq l := by
@@ -167,12 +160,89 @@ private theorem walk_refines (target allowed : Nat) (rest taken : List Node) (us
           rw [List.map_append, List.map_cons, List.map_nil, uniq_length_append_new hkt]
           simp only [List.length_append, List.length_cons, List.length_nil]; omega
 
+private theorem ringRange_cw {r : Ring Node} (hs : Sorted r) (tok : Int) :
+    ringRange r tok = (clockwise r tok).map (·.2) := by
+  unfold ringRange; rw [ringRangeFull_eq_clockwise hs]
+
+private theorem simple_spec_aux {r : Ring Node} (hs : Sorted r) (tok : Int) (rf : Nat) :
+    simpleReplicas r tok rf = specSimple r rf tok := by
+  unfold simpleReplicas specSimple nodesClockwise
+  rw [distinct_eq_uniq, ← ringRange_cw hs, ← ringNodes_length r tok]
+  rw [List.take_eq_take_iff]
+  omega
+
+private theorem nts_spec_aux {r : Ring Node} (hs : Sorted r) (tok : Int) (dc rf : Nat) :
+    ntsReplicas r tok dc rf = specNtsDc r tok dc rf := by
+  rw [ntsReplicas_def]
+  unfold specNtsDc nodesClockwise
+  simp only []
+  rw [distinct_eq_uniq, distinct_eq_uniq, ← ringRange_cw (sorted_dcRing hs dc)]
+  have := walk_refines (min rf (dcNodes r tok dc).length) (rf - newRacks [] (dcNodes r tok dc))
+    (dcNodes r tok dc) [] [] (min rf (dcNodes r tok dc).length) (rf - newRacks [] (dcNodes r tok dc))
+    (by simp) (by simp) (by simp [repeatsUsed, distinct])
+  rw [List.nil_append] at this
+  exact this
+
+/-! ### headline: what the driver reports = the placement rule, end to end
+
+`locOf r S` is the locator the driver builds (`mkLocator_eq`), `r` any ring sorted by token (`ring_sorted`: every ring
+`TokenRing::new` builds is), `S` any set of keyspace strategies that were precomputed — the queried strategy may
+or may not be among them.  `Sorted r` is where the meaning of the rule sits: "clockwise from the token"
+(`clockwise`: owners of tokens `≥ tok` in list order, then the others) is the ring walk only on a sorted ring. -/
+
+/-- **SimpleStrategy**: the replicas reported by `replicas_for_token` (iteration order) are the first RF distinct
+nodes clockwise from the token — every RF (0, above the node count), precomputed or not. -/
+theorem replicas_simple_eq_spec {r : Ring Node} (hs : Sorted r) (S : List Strategy) (tok : Int) (rf : Nat) :
+    (replicasForToken (locOf r S) tok (.simple rf) none).iter (locOf r S) = specSimple r rf tok := by
+  simp only [replicasForToken, ReplicaSet.iter]
+  rw [getSimple_precompute hs, simple_spec_aux hs]
+
+/-- SimpleStrategy restricted to a datacenter: the rule's list filtered by that datacenter, same order. -/
+theorem replicas_simple_dc_eq_spec {r : Ring Node} (hs : Sorted r) (S : List Strategy) (tok : Int) (rf d : Nat) :
+    (replicasForToken (locOf r S) tok (.simple rf) (some d)).iter (locOf r S) =
+      (specSimple r rf tok).filter (fun n => decide (n.dc = some d)) := by
+  simp only [replicasForToken, ReplicaSet.iter]
+  rw [getSimple_precompute hs, simple_spec_aux hs]
+
+/-- **NetworkTopologyStrategy, one datacenter**: the replicas reported for datacenter `d` are the rack-aware walk
+of that datacenter's nodes as the property states it (RF 0, RF around the rack count and above the node
+count, datacenter absent from the ring included); a datacenter the strategy does not mention has none. -/
+theorem replicas_nts_dc_eq_spec {r : Ring Node} (hs : Sorted r) (S : List Strategy) (tok : Int)
+    (repf : List (Nat × Nat)) (d : Nat) :
+    (replicasForToken (locOf r S) tok (.nts repf) (some d)).iter (locOf r S) =
+      match repf.lookup d with
+      | some rf => specNtsDc r tok d rf
+      | none => [] := by
+  simp only [replicasForToken]
+  cases repf.lookup d with
+  | none => rfl
+  | some rf =>
+    simp only [ReplicaSet.iter]
+    rw [getNts_precompute hs, nts_spec_aux hs]
+
+/-- **NetworkTopologyStrategy, all datacenters**, as an ordered list: the ring's datacenters in order of first
+appearance on the ring (from the lowest token), each contributing its rack-aware walk with the strategy's RF
+for it (0 if the strategy does not mention it).  As a set this is the union over the strategy's datacenters
+(`nts_unrestricted_eq_spec`). -/
+theorem replicas_nts_eq_spec {r : Ring Node} (hs : Sorted r) (S : List Strategy) (tok : Int)
+    (repf : List (Nat × Nat)) :
+    (replicasForToken (locOf r S) tok (.nts repf) none).iter (locOf r S) =
+      (uniq (r.filterMap (·.2.dc))).flatMap (fun dc => specNtsDc r tok dc ((repf.lookup dc).getD 0)) := by
+  have hN := fun t d rf => getNts_precompute hs S t d rf
+  simp only [replicasForToken, ReplicaSet.iter, hN, Locator.datacenters, nts_spec_aux hs]
+
+theorem mkLocator_eq (entries : List (Int × Node)) (S : List Strategy) :
+    mkLocator entries S = locOf (mkRing entries) S := rfl
+
+/-- `TokenRing::new` yields a sorted ring, so the hypothesis `Sorted r` of the theorems below holds for every
+ring the driver builds. -/
+theorem ring_sorted (entries : List (Int × Node)) : Sorted (mkRing entries) := mkRing_sorted entries
+
 /-! ### the ring walk -/
 
 /-- On every sorted ring (duplicate tokens allowed) `ring_range` is "clockwise from the token". -/
 theorem ringRange_eq_clockwise {r : Ring Node} (hs : Sorted r) (tok : Int) :
-    ringRange r tok = (clockwise r tok).map (·.2) := by
-  unfold ringRange; rw [ringRangeFull_eq_clockwise hs]
+    ringRange r tok = (clockwise r tok).map (·.2) := ringRange_cw hs tok
 
 /-- **Snap**: every token of an interval has the answer of the ring member the walk starts at (this is why
 one precomputed entry per ring token suffices). -/
@@ -190,11 +260,7 @@ theorem dcRing_range_eq_filter {r : Ring Node} (hs : Sorted r) (tok : Int) (dc :
 /-- SimpleStrategy: the driver's list is the first RF distinct nodes clockwise from the token
 (every RF, including 0 and RF above the node count). -/
 theorem simple_eq_spec {r : Ring Node} (hs : Sorted r) (tok : Int) (rf : Nat) :
-    simpleReplicas r tok rf = specSimple r rf tok := by
-  unfold simpleReplicas specSimple nodesClockwise
-  rw [distinct_eq_uniq, ← ringRange_eq_clockwise hs, ← ringNodes_length r tok]
-  rw [List.take_eq_take_iff]
-  omega
+    simpleReplicas r tok rf = specSimple r rf tok := simple_spec_aux hs tok rf
 
 /-- **Size**: a datacenter contributes exactly `min(RF, nodes in that datacenter)` replicas — for every ring
 (no hypothesis), rack layout and RF. -/
@@ -204,16 +270,7 @@ theorem nts_len (r : Ring Node) (tok : Int) (dc rf : Nat) :
 
 /-- NetworkTopologyStrategy, one datacenter: the driver's iterator computes the stated rule. -/
 theorem nts_eq_spec {r : Ring Node} (hs : Sorted r) (tok : Int) (dc rf : Nat) :
-    ntsReplicas r tok dc rf = specNtsDc r tok dc rf := by
-  rw [ntsReplicas_def]
-  unfold specNtsDc nodesClockwise
-  simp only []
-  rw [distinct_eq_uniq, distinct_eq_uniq, ← ringRange_eq_clockwise (sorted_dcRing hs dc)]
-  have := walk_refines (min rf (dcNodes r tok dc).length) (rf - newRacks [] (dcNodes r tok dc))
-    (dcNodes r tok dc) [] [] (min rf (dcNodes r tok dc).length) (rf - newRacks [] (dcNodes r tok dc))
-    (by simp) (by simp) (by simp [repeatsUsed, distinct])
-  rw [List.nil_append] at this
-  exact this
+    ntsReplicas r tok dc rf = specNtsDc r tok dc rf := nts_spec_aux hs tok dc rf
 
 /-- The replicas of a datacenter are nodes of that datacenter, each at most once, in ring order. -/
 theorem nts_members (r : Ring Node) (tok : Int) (dc rf : Nat) :
@@ -515,13 +572,42 @@ example : (ntsReplicas exRing 160 0 2).map (·.id) = [2, 3] ∧ (ntsReplicas exR
     (ntsReplicas exRing 160 0 4).map (·.id) = [2, 3, 1, 7] ∧ (ntsReplicas exRing 160 0 9).map (·.id) = [2, 3, 1, 7] ∧
     (specNtsDc exRing 160 0 4).map (·.id) = [2, 3, 1, 7] ∧ (specSimple exRing 3 160).map (·.id) = [5, 2, 3] := by decide
 -- the unrestricted NTS set {eu: 2, us: 0} (the F6 shape) and {eu: 2, us: 2}: iterated by datacenter, ordered by
--- ring position (`ntsIter` / `ntsOrdered` are what `iter` / `ordered` are shown to equal in `views_agree`;
--- `decide` cannot run `precompute` itself because `mergeSort` is defined by well-founded recursion — the
--- precomputed path is exercised concretely by the differential run)
+-- ring position (`ntsIter` / `ntsOrdered` are what `iter` / `ordered` are shown to equal in `views_agree`)
 example : (ntsIter exRing [(0, 2), (1, 0)] 160).map (·.id) = [2, 3] ∧
     (ntsOrdered exRing [(0, 2), (1, 0)] 160).map (·.id) = [2, 3] ∧
     (ntsIter exRing [(0, 2), (1, 2)] 160).map (·.id) = [2, 3, 5, 4] ∧
     (ntsOrdered exRing [(0, 2), (1, 2)] 160).map (·.id) = [5, 2, 3, 4] ∧
     ((List.map (·.1) [(0, 2), (1, 2)]).Nodup) := by decide
+
+/-! ### non-vacuity of the precomputed path (in-kernel instances)
+
+`decide` cannot run `mergeSort` (well-founded recursion), so the locator is first rewritten with
+`precompute_eq_noSort` (the re-sorts inside `compute` are the identity on a sorted ring) and then evaluated.
+Keyspaces: NTS {eu: 2, us: 3}, NTS {eu: 4}, Simple 3.  `eu` has 3 racks: RF 2 is served from the compressed list
+(max RF ≤ racks = 2), RF 4 from its own list above the rack count, RF 3 is not precomputed (falls back to the
+walk), RF 1 is a prefix of the compressed list; Simple 2 is a prefix of the global list for RF 3. -/
+
+def exS : List Strategy := [.nts [(0, 2), (1, 3)], .nts [(0, 4)], .simple 3]
+
+example : ((precomputeNoSort exRing exS).dcs.map (fun d => (d.1, d.2.compressed.map (·.maxRf), d.2.above.map (·.1)))) =
+    [(0, some 2, [4]), (1, some 3, [])] := by decide
+
+example :
+    (lookupNts (precompute exRing exS) 160 0 2).map (·.map (·.id)) = some [2, 3] ∧        -- compressed list
+    (lookupNts (precompute exRing exS) 160 0 1).map (·.map (·.id)) = some [2] ∧           -- its prefix
+    (lookupNts (precompute exRing exS) 160 0 4).map (·.map (·.id)) = some [2, 3, 1, 7] ∧  -- list above the rack count
+    (lookupNts (precompute exRing exS) 160 0 3).map (·.map (·.id)) = none ∧               -- not precomputed
+    (getNts (locOf exRing exS) 160 0 3).map (·.id) = [2, 3, 7] ∧                          -- … on the fly
+    (lookupSimple (precompute exRing exS) 160 2).map (·.map (·.id)) = some [5, 2] ∧       -- prefix of the RF 3 list
+    (lookupSimple (precompute exRing exS) 160 4) = none ∧
+    (getSimple (locOf exRing exS) 160 4).map (·.id) = [5, 2, 3, 4] := by
+  rw [locOf, precompute_eq_noSort (by decide)]; decide
+
+-- all four views of the unrestricted set {eu: 2, us: 2} through the locator with precomputed lists
+example : let loc := locOf exRing exS
+    let rs := replicasForToken loc 160 (.nts [(0, 2), (1, 2)]) none
+    rs.len loc = 4 ∧ (rs.iter loc).map (·.id) = [2, 3, 5, 4] ∧ (rs.ordered loc).map (·.id) = [5, 2, 3, 4] ∧
+      ((List.range 4).map (fun i => (rs.choose loc i).map (·.id))) = [some 2, some 3, some 5, some 4] := by
+  rw [locOf, precompute_eq_noSort (by decide)]; decide
 
 end ScyllaVerif.Props.C04
